@@ -4,7 +4,7 @@
    an obligation here. *)
 From Coq Require Import ZArith List Bool.
 Require Import Model.Base Model.Ir Model.Propagate Gen.DegreeTable Spec.PolyDeg.
-Require Import Model.Justify Model.DegJustify Spec.DegSem Proofs.PolyDegProofs Proofs.DegreeProofs Proofs.DegGraphProofs.
+Require Import Model.Justify Model.DegJustify Spec.DegSem Proofs.PolyDegProofs Proofs.DegreeProofs Proofs.DegGraphProofs Proofs.ValueProofs.
 Import ListNotations.
 Local Open Scope Z_scope.
 
@@ -173,3 +173,16 @@ Example C07_control_dependence_matters :
   djust_cfg (exc_graph None None) idom = true /\
   djust_cfg (exc_graph None exa_cc) idom = false.
 Proof. vm_compute. repeat split; reflexivity. Qed.
+
+(* the semantic side is not vacuous either: over valuations Z (one signal a, the line
+   rho + t * delta) the store that holds the identity for the signal a and nothing else is an
+   initial store of the diamond graph in the sense of [finit_ok] *)
+Example C07_initial_store_example :
+  finit_ok Z (fun r d t => r + t * d) 7 (exc_graph (Some (DNonQuad, DNonQuad)) (Some (DConst, DNonQuad)))
+           (fun x => if vname_eqb exa_a x then Some (fun _ rho => rho) else None).
+Proof.
+  intros x F Hx. destruct (vname_eqb exa_a x) eqn:E; [|discriminate].
+  apply vname_eqb_eq in E. subst x. injection Hx as <-.
+  right. left. split; [reflexivity|]. split; [exists TSigIn; split; [reflexivity|discriminate]|].
+  intros i rho delta t. cbn [Dn]. unfold Dd. replace (_ - _) with 0 by ring. reflexivity.
+Qed.
